@@ -34,7 +34,7 @@ def gen_scenario(rng, small=False):
         if k < 0.45:
             ev = {"type": "worker_exit", "which": rng.randint(0, 5)}
             if rng.random() < 0.5:
-                ev["signal"] = rng.choice([9, 15, 11, 6])
+                ev["signal"] = rng.choice([9, 15, 11, 6, 3, 4, 1, 2, 7, 10])
             else:
                 ev["status"] = rng.choice([0, 1, 1, 255, 3, 4] if rng.random() < 0.25 else [0, 1, 255])
                 if ev["status"] in (3, 4):
@@ -48,6 +48,15 @@ def gen_scenario(rng, small=False):
         t += rng.choice([0.0, 0.0, 0.3, 0.7, 2.5, 4.0])
         ev["at"] = round(t, 2)
         events.append(ev)
+    flood = False
+    if rng.random() < 0.12:
+        # burst of more signals than the arbiter's 5-slot queue holds, together with a worker death
+        flood = True
+        t += rng.choice([0.0, 0.4, 1.3])
+        for _ in range(rng.randint(6, 9)):
+            events.append({"type": "signal", "sig": rng.choice(["TTIN", "TTIN", "TTOU"]), "at": round(t, 2)})
+        events.insert(len(events) - rng.randint(0, 3), {"type": "worker_exit", "which": rng.randint(0, 3),
+                                                        "signal": 9, "at": round(t, 2)})
     default_policy = {"term_delay": rng.choice([0.0, 0.3, 1.5])}
     spawn_policy = {}
     for i in range(rng.choice([0, 0, 1, 2])):
@@ -70,7 +79,7 @@ def gen_scenario(rng, small=False):
     else:
         events.append({"type": "end", "at": round(t + W, 2)})
     return {"workers": workers, "timeout": timeout, "graceful_timeout": graceful, "events": events,
-            "default_policy": default_policy, "spawn_policy": spawn_policy, "final": final,
+            "default_policy": default_policy, "spawn_policy": spawn_policy, "final": final, "flood": flood,
             "max_ticks": 300 + int(40 * t)}
 
 
@@ -165,6 +174,9 @@ class Monitor:
                               k.boot_failure_reaped_at - k.t0, k.now - k.t0)))
                 return v
             target = self.target_delivered
+            if sc.get("flood"):
+                # signals beyond the queue's capacity coalesce (are dropped): the model follows what the arbiter dequeued
+                target = self.target_handled
             effective = [p for p in run if not any(s in (TERM, int(signal.SIGKILL), int(signal.SIGQUIT), int(signal.SIGABRT))
                                                     for _, s in p.sent)]
             # a worker that was asked to stop but lingers (ignores TERM) may or may not be counted: both readings pass
@@ -275,6 +287,8 @@ def run_one(run, e3, sc, schedule, sched_desc):
         run.count("quiescence_checks")
     if any(e[1] == "app_reload" for e in k.log):
         run.count("reload_histories")
+    if sc.get("flood"):
+        run.count("signal_flood_histories")
     return v, k
 
 
@@ -329,7 +343,7 @@ def main(tier, seed):
     run = Run(PROP, tier, seed, "exploration", RULE)
     run.require("histories", "quiescence_checks", "sigchld_handler_calls", "death_at_fork_return", "death_at_kill_return",
                 "death_between_source_lines", "death_while_master_sleeps", "term_kills_judged", "boot_failures_reaped",
-                "stop_signal_histories", "reload_histories", "enumerated_first_delivery_points")
+                "stop_signal_histories", "reload_histories", "enumerated_first_delivery_points", "signal_flood_histories")
     q = tier == "quick"
     shards = [{"kind": "sample", "n": 60 if q else 1500, "schedules": 20, "sub": i, "seed": seed, "tier": tier}
               for i in range(16 if q else 32)]
@@ -339,7 +353,7 @@ def main(tier, seed):
         "system call or between source lines of arbiter.py, never re-entrantly (CPython's documented delivery model)",
         "convergence is judged as bounded progress: W = timeout + graceful_timeout + 6 virtual seconds after the last event",
         "workers that ignore TERM are not counted as live-and-serving once they have been asked to stop",
-        "at most 4 master signals are delivered per loop tick, so the arbiter's 5-slot signal queue never overflows",
+        "a separate flood class delivers 6-9 signals at one instant: there the model target follows the signals the arbiter logged as handled",
         "live validation of the simulation against a real master: see the live sub-tier (traces_validated_against_impl)",
     ]
     from checks import c03_live
